@@ -1,4 +1,6 @@
 import ClusterVerif.Spec.C06
+import ClusterVerif.Spec.C06S
+import ClusterVerif.Model.C06S
 import Driver.Parse
 /-!
 Line protocol of the C06 harness (tokens after the leading `C06`):
@@ -525,6 +527,65 @@ def answerGs (pre post : List String) : String :=
         else "ok " ++ arm ++ (if (i.follower && !fi.peersErr) || (oo.getD []).isEmpty && !fi.peersErr then " trivial" else "")
   | _ => "bad-case arity"
 
+/-! ### fs: the filter from text to the Cluster RPC (round 8) -/
+
+def decText (s : String) : String := if s == "%" then "" else s.replace "~" " "
+
+def sortStrs (l : List String) : List String := (l.toArray.qsort (· < ·)).toList
+
+def kv (post : List String) (k : String) : Option String :=
+  (post.find? (·.startsWith (k ++ "="))).map (fun t => (t.drop (k.length + 1)).toString)
+
+def parseRpcFilter (s : String) : Option (String × Nat) :=
+  match s.splitOn ":" with
+  | [m, f] => f.toNat?.map (fun n => (m, n))
+  | _ => none
+
+def answerFS (pre post : List String) : String :=
+  match pre with
+  | [t, m, s, l] =>
+    match m.toNat?, s.toNat?, bool01 l, (kv post "P").bind String.toNat?, kv post "H", kv post "Q",
+          (kv post "R").bind String.toNat?, (kv post "M").bind bool01, kv post "C" with
+    | some mask, some st, some loc, some p, some h, some q, some r, some mt, some c =>
+      match h.splitOn ":" with
+      | [hacc, hrpc, hf] =>
+        match hf.toNat? with
+        | none => "bad-case H"
+        | some hfilter =>
+          let text := decText t
+          let qs := if q == "%" then [] else q.splitOn ","
+          let cOdd := !(c == "err") && (parseRpcFilter c).isNone
+          let o : SpecS.Obs := { text := text, mask := mask, st := st, isLocal := loc, p := p, hAcc := hacc, hRpc := hrpc,
+                                 hFilter := hfilter, q := qs, r := r, m := mt,
+                                 c := if c == "err" then none else parseRpcFilter c, cOdd := cOdd }
+          let failed := (SpecS.clauses o).filter (fun e => !e.2)
+          -- the model
+          let cs := text.toList
+          let mp := parseC cs
+          let mh : String × String × Nat := match restFilter cs with
+            | some f => ("acc", SpecS.rpcOf loc, f)
+            | none => ("rej", "-", 0)
+          let mq := sortStrs ((printToks namesC mask).map String.ofList)
+          let mr := parseC (printC namesC mask)
+          let mm := matchG st mask
+          let mc := (endToEnd namesC mask).map (fun f => (SpecS.rpcOf loc, f))
+          let md := !(p == mp && (hacc, hrpc, hfilter) == mh && qs == mq && r == mr && mt == mm && o.c == mc && !cOdd)
+          let arm := "arm=fs-" ++ (if text == "" then "empty" else if mp == 0 then "rejected"
+                       else if (text.splitOn ",").length == 1 then "single" else "union") ++
+                     (if mc.isNone then "+client-refuses" else if mask == 0 then "+mask0"
+                      else if (printToks namesC mask).length == 1 then "+mask-exact" else "+mask-union") ++
+                     (if mask != (mask &&& namedMask) then "+unnamed-bits" else "")
+          if !failed.isEmpty then
+            "propfail " ++ ",".intercalate (failed.map (·.1)) ++ " " ++ arm ++ (if md then " modeldiff" else "")
+          else if md then
+            "diff " ++ arm ++ " model=P=" ++ toString mp ++ " H=" ++ mh.1 ++ ":" ++ mh.2.1 ++ ":" ++ toString mh.2.2 ++
+              " Q=" ++ (if mq.isEmpty then "%" else ",".intercalate mq) ++ " R=" ++ toString mr ++ " M=" ++ (if mm then "1" else "0") ++
+              " C=" ++ (match mc with | some (a, f) => a ++ ":" ++ toString f | none => "err")
+          else "ok " ++ arm
+      | _ => "bad-case H"
+    | _, _, _, _, _, _, _, _, _ => "bad-case fs fields"
+  | _ => "bad-case arity"
+
 /-- answer for one case line (tokens after the leading "C06") -/
 def answer (ws : List String) : String :=
   match ws with
@@ -537,6 +598,7 @@ def answer (ws : List String) : String :=
       else if kind == "gs" then answerGs pre post
       else if kind == "tf" then answerTF pre post
       else if kind == "tr" then answerTR pre post
+      else if kind == "fs" then answerFS pre post
       else "bad-case unknown-kind"
   | [] => "bad-case empty"
 
